@@ -45,7 +45,8 @@ class Layout:
 class Hostile(Layout):
     """Random trivia at every boundary, as far as the grammar permits; random letter case for case-insensitive words."""
 
-    COMMENT_TEXTS = ["c", "lda #1", "x: {", "}", ".byte 1, 2", "\"quote", "* = $1000", "a /* b", "é€", "", "  ", ".if 0 {", "else"]
+    COMMENT_TEXTS = ["c", "lda #1", "x: {", "}", ".byte 1, 2", "\"quote", "* = $1000", "a /* b", "é€", "", "  ", ".if 0 {", "else",
+                     "***", "** doc **", "=*", "/", "//", "///", "x //* old */ y", "*", "a */* b */ c /"]
 
     def __init__(self, rng, crlf=None, comments=True, case=True, multiline_block=True, else_comments=True, same_line=0.1):
         super().__init__(rng, rng.random() < 0.3 if crlf is None else crlf)
@@ -68,17 +69,38 @@ class Hostile(Layout):
         self.comment_meta[self._cid] = self._ctx
         return "c%dz " % self._cid
 
+    @staticmethod
+    def _scan_ok(body):
+        """Does "/*" + body + "*/" scan (left to right, nesting counted) as exactly one block comment?"""
+        text = "/*" + body + "*/"
+        depth, i = 0, 0
+        while i < len(text):
+            two = text[i:i + 2]
+            if two == "/*":
+                depth += 1
+                i += 2
+            elif two == "*/":
+                depth -= 1
+                i += 2
+                if depth == 0:
+                    return i == len(text)
+            else:
+                i += 1
+        return False
+
     def _block_comment(self, multiline_ok):
         rng = self.rng
-        t = self._new_id() + rng.choice(self.COMMENT_TEXTS).replace("*/", "* /")
+        t = self._new_id() + rng.choice(self.COMMENT_TEXTS)
         if rng.random() < 0.25:
-            inner = rng.choice(self.COMMENT_TEXTS).replace("*/", "* /")
-            t = t + " /* " + inner.replace("/*", "/ *") + " */ "
-        # an unbalanced "/*" inside would open a nested comment
-        if t.count("/*") != t.count("*/"):
-            t = t.replace("/*", "/ *").replace("*/", "* /")
+            t = t + " /* " + rng.choice(self.COMMENT_TEXTS) + " */ "
         if multiline_ok and self.multiline_block and rng.random() < 0.3:
-            t = t + self.nl + " " + rng.choice(self.COMMENT_TEXTS).replace("*/", "* /").replace("/*", "/ *")
+            t = t + self.nl + " " + rng.choice(self.COMMENT_TEXTS)
+        if not self._scan_ok(t):
+            # defuse everything that would open or close a comment in the wrong place
+            t = t.replace("/*", "/ *").replace("*/", "* /")
+            if t.endswith("/"):
+                t += " "
+            assert self._scan_ok(t), t
         return "/*" + t + "*/"
 
     def _line_comment(self):
@@ -195,6 +217,11 @@ class Hostile(Layout):
 
     def number(self, v, hint):
         rng = self.rng
+        if hint in ("true", "false"):
+            return self.case(hint, "bool") if rng.random() < 0.7 else str(v)
+        if v in (0, 1) and rng.random() < 0.06:
+            # the keyword operands true/false are numbers; any letter case
+            return self.case("true" if v else "false", "bool")
         if hint and rng.random() < 0.5:
             return hint
         r = rng.random()
